@@ -313,6 +313,249 @@ Section LoadHit.
       unfold JJ. destruct (g_pc s t); try exact I. contradiction.
     Qed.
   End OneLookup.
+
+  (* ---------------- how one step changes the entry pointer of a slot of a published chain ---------------- *)
+
+  Lemma ent_step s u p s' ls tab b pos : XInv s -> XC s -> g_pc s u = p -> step_pc s u p = Some (s', ls) ->
+    tab < length (g_tabs s) -> newtab p <> Some tab -> pos < length (chain_of (tab_at s tab) b) ->
+    s_ent (nth pos (chain_of (tab_at s' tab) b) empty_slot) = s_ent (nth pos (chain_of (tab_at s tab) b) empty_slot)
+    \/ (exists cx old, p = PW_D2 cx tab pos old /\ home hash idx (tab_at s tab) (cx_k cx) = b)
+    \/ (exists cx nv, (exists old, p = PW_U1 cx tab pos old nv) /\ home hash idx (tab_at s tab) (cx_k cx) = b
+                      /\ s_ent (nth pos (chain_of (tab_at s' tab) b) empty_slot) = Some (cx_k cx, nv))
+    \/ (exists cx nv, p = PW_I2 cx tab pos nv /\ home hash idx (tab_at s tab) (cx_k cx) = b
+                      /\ s_ent (nth pos (chain_of (tab_at s' tab) b) empty_slot) = Some (cx_k cx, nv)).
+  Proof.
+    intros HI HC Hp Hs Htab Hnt Hpos.
+    destruct (step_chain_frame eqd hash idx tag nslots seeds grow_needed shrink_policy probe nstripes minlen grow_only
+                s u p s' ls HI Hp Hs tab b Htab) as [H|[H|H]]; [left; rewrite H; reflexivity | | contradiction].
+    pose proof (xc_pc _ _ _ _ _ s HC u) as Hf. rewrite Hp in Hf.
+    pose proof (xi_valid _ _ _ _ s HI u) as Hv. rewrite Hp in Hv.
+    destruct p; cbn [holds] in H; try discriminate H; inversion H; subst; clear H;
+      step_cases5 Hs; cbn [valid X_c04.pcfact] in *; unfold X_c04.chain, X_c04.hkey, ent_at, tag_at in *;
+      change (tab_at (set_pc ?S0 u ?q) tab) with (tab_at S0 tab);
+      rewrite ?(chain_set_tab nslots nstripes s tab _ tab _ Htab);
+      try (destruct (Nat.eq_dec tab tab) as [_|Hc]; [|exfalso; apply Hc; reflexivity]);
+      try (left; reflexivity);
+      rewrite ?chain_of_set_chain;
+      try (match goal with |- context [Nat.eq_dec ?a ?a] => destruct (Nat.eq_dec a a) as [_|Hc]; [|exfalso; apply Hc; reflexivity] end);
+      try (match goal with |- context [Nat.ltb ?a ?b] => let E := fresh "E" in destruct (Nat.ltb a b) eqn:E; [|apply Nat.ltb_ge in E; exfalso; pose proof (xi_wf _ _ _ _ s HI tab Htab) as [W0 _]; pose proof (Hidx (hash (cx_k cx) (x_seed (tab_at s tab))) _ W0); unfold XMachine.home in E; lia] end).
+    all: try (rewrite app_nth1 by exact Hpos; left; reflexivity).
+    all: rewrite (nth_set_slot _ _ _ pos) by (apply Hf);
+         (destruct (Nat.eq_dec pos pos0) as [->|Hne]; [|left; reflexivity]); cbn [s_ent].
+    (* D1, I1: the meta byte only *)
+    all: try (left; reflexivity).
+    (* D2 *)
+    all: try (right; left; do 2 eexists; split; reflexivity).
+    (* U1 *)
+    all: try (right; right; left; do 2 eexists; split; [eexists; reflexivity | split; reflexivity]).
+    (* I2 *)
+    all: try (right; right; right; do 2 eexists; split; [reflexivity | split; reflexivity]).
+  Qed.
+
+  (* ---------------- the other half: a key that stays visible is found ---------------- *)
+
+  Section OneMiss.
+    Variables (t : nat) (k : K) (lc : @lcont K V) (tab : nat).
+
+    Notation inl := (inlookup t k lc tab).
+
+    (* k is visible in slot p of its home chain *)
+    Definition kpos (s : xstate) (p : nat) : Prop :=
+      let c := chain_of (tab_at s tab) (home hash idx (tab_at s tab) k) in
+      p < length c /\ s_tag (nth p c empty_slot) <> None /\ exists v, s_ent (nth p c empty_slot) = Some (k, v).
+
+    Lemma kpos_uniq s p q : XInv s -> XC s -> tab < length (g_tabs s) -> (forall w, newtab (g_pc s w) <> Some tab) ->
+      kpos s p -> kpos s q -> p = q.
+    Proof.
+      intros HI HC Htab Hpub [P1 [_ [v1 P3]]] [Q1 [_ [v2 Q3]]].
+      assert (Hb : home hash idx (tab_at s tab) k < x_len (tab_at s tab)) by (unfold XMachine.home; apply Hidx; apply (xi_wf _ _ _ _ s HI tab Htab)).
+      destruct (xc_ch _ _ _ _ _ s HC tab _ Htab Hpub Hb) as [_ [Hu _]]. unfold X_c04.chain in Hu.
+      apply (Hu p q k v1 v2 P1 Q1 P3 Q3).
+    Qed.
+
+    (* the visible slot of k does not move in one step *)
+    Lemma kpos_step_pc s u p s' ls p0 p' : XInv s -> XT s -> XC s -> XInv s' -> XT s' -> XC s' -> g_pc s u = p -> step_pc s u p = Some (s', ls) ->
+      tab <= g_cur s -> tab <= g_cur s' -> kpos s p0 -> kpos s' p' -> p' = p0.
+    Proof.
+      intros HI HT HC HI' HT' HC' Hp Hs Hc Hc' [P1 [P2 [v0 P3]]] K'.
+      assert (Htab : tab < length (g_tabs s)) by (pose proof (xi_cur _ _ _ _ s HI); lia).
+      assert (Htab' : tab < length (g_tabs s')) by (pose proof (xi_cur _ _ _ _ s' HI'); lia).
+      assert (Hpub : forall w, newtab (g_pc s w) <> Some tab) by (intros w Ew; destruct (xt_new s HT w _ Ew) as [_ B]; lia).
+      assert (Hpub' : forall w, newtab (g_pc s' w) <> Some tab) by (intros w Ew; destruct (xt_new s' HT' w _ Ew) as [_ B]; lia).
+      pose proof (step_frame eqd hash idx tag nslots seeds grow_needed shrink_policy probe nstripes minlen grow_only Hminlen Hnslots s u p s' ls Hs) as [_ Hfr].
+      destruct (Hfr tab Htab) as [E1 [E2 _]].
+      assert (Eh : home hash idx (tab_at s' tab) k = home hash idx (tab_at s tab) k) by (unfold XMachine.home; rewrite E1, E2; reflexivity).
+      set (b := home hash idx (tab_at s tab) k) in *.
+      assert (Hk : exists v1, s_ent (nth p0 (chain_of (tab_at s' tab) b) empty_slot) = Some (k, v1)).
+      { assert (Hnt : newtab p <> Some tab) by (rewrite <- Hp; apply Hpub).
+        pose proof (xc_pc _ _ _ _ _ s HC u) as Hf. rewrite Hp in Hf.
+        destruct (ent_step s u p s' ls tab b p0 HI HC Hp Hs Htab Hnt P1) as [E|[[cx [old [Ep Eb]]]|[[cx [nv [[old Ep] [Eb E]]]]|[cx [nv [Ep [Eb E]]]]]]].
+        - exists v0. rewrite E. exact P3.
+        - exfalso. rewrite Ep in Hf. cbn [X_c04.pcfact] in Hf. unfold X_c04.chain, X_c04.hkey, tag_at in Hf. rewrite Eb in Hf. destruct Hf as [_ [_ F3]]. exact (P2 F3).
+        - rewrite Ep in Hf. cbn [X_c04.pcfact] in Hf. unfold X_c04.chain, X_c04.hkey, ent_at in Hf. rewrite Eb in Hf. destruct Hf as [_ [F2 _]].
+          rewrite P3 in F2. inversion F2; subst. exists nv. rewrite E. rewrite <- H0. reflexivity.
+        - exfalso. rewrite Ep in Hf. cbn [X_c04.pcfact] in Hf. unfold X_c04.chain, X_c04.hkey, ent_at in Hf. rewrite Eb in Hf. destruct Hf as [_ [F2 _]].
+          rewrite P3 in F2. discriminate F2. }
+      destruct Hk as [v1 Hk]. destruct K' as [Q1 [Q2 [v2 Q3]]]. rewrite Eh in Q1, Q2, Q3.
+      assert (Hb' : b < x_len (tab_at s' tab)) by (rewrite E1; unfold b, XMachine.home; apply Hidx; apply (xi_wf _ _ _ _ s HI tab Htab)).
+      destruct (xc_ch _ _ _ _ _ s' HC' tab b Htab' Hpub' Hb') as [_ [Hu _]]. unfold X_c04.chain in Hu.
+      assert (P1' : p0 < length (chain_of (tab_at s' tab) b)).
+      { destruct (Nat.lt_ge_cases p0 (length (chain_of (tab_at s' tab) b))) as [H|H]; [exact H|]. rewrite nth_overflow in Hk by exact H. discriminate Hk. }
+      apply (Hu p' p0 k v2 v1 Q1 P1' Q3 Hk).
+    Qed.
+
+    Lemma kpos_xstep s u s' ls p0 p' : XI5 s -> XI5 s' -> xstep s u = Some (s', ls) ->
+      tab <= g_cur s -> tab <= g_cur s' -> kpos s p0 -> kpos s' p' -> p' = p0.
+    Proof.
+      intros [[HI [_ [HT HC]]] _] [[HI' [_ [HT' HC']]] _] E Hc Hc' K0 K'. unfold XMachine.xstep in E.
+      destruct (g_pc s u) eqn:Hp; try (eapply kpos_step_pc; [exact HI | exact HT | exact HC | exact HI' | exact HT' | exact HC' | exact Hp | exact E | exact Hc | exact Hc' | exact K0 | exact K']).
+      destruct (g_todo s u) as [|o rest]; [discriminate|].
+      destruct (invoke_inv hash idx tag nslots seeds grow_needed nstripes minlen Hminlen Hnslots s u o rest HI HT HC Hp) as [HI1 [HT1 HC1]].
+      cbv zeta in HI1, HT1, HC1. set (s1 := set_pc _ u (start_pc o)) in *.
+      assert (Epc : g_pc s1 u = start_pc o) by (unfold s1; cbn [set_pc g_pc]; destruct (Nat.eq_dec u u); congruence).
+      assert (K1 : kpos s1 p0) by exact K0.
+      change (match step_pc s1 u (start_pc o) with
+              | Some (s2, ls1) => Some (s2, XMachine.XInv u o :: ls1)
+              | None => Some (s1, [XMachine.XInv u o])
+              end = Some (s', ls)) in E.
+      destruct (step_pc s1 u (start_pc o)) as [[s2 ls1]|] eqn:E2.
+      - inversion E; subst s2 ls.
+        eapply (kpos_step_pc s1 u (start_pc o) s' ls1 p0 p'); try eassumption.
+      - inversion E; subst s' ls.
+        assert (Htab : tab < length (g_tabs s)) by (pose proof (xi_cur _ _ _ _ s HI); lia).
+        assert (Hpub : forall w, newtab (g_pc s1 w) <> Some tab) by (intros w Ew; destruct (xt_new s1 HT1 w _ Ew) as [_ B]; cbn in B; lia).
+        symmetry. apply (kpos_uniq s1 p0 p' HI1 HC1 Htab Hpub K1 K').
+    Qed.
+
+    (* where the reader still has to look: the visible slot of k is not behind it *)
+    Definition region (p : pc) (q : nat) : Prop :=
+      match p with
+      | PL_Meta _ _ _ _ bi => bi * nslots <= q
+      | PL_Ent _ _ _ _ bi todo => (exists i, In i todo /\ q = bi * nslots + i) \/ (S bi) * nslots <= q
+      | PL_Next _ _ _ _ bi => (S bi) * nslots <= q
+      | _ => True
+      end.
+
+    Definition JM (s : xstate) : Prop := forall q, kpos s q -> region (g_pc s t) q.
+
+    Definition stays (s : xstate) : Prop := inl s /\ exists q, kpos s q.
+
+    Lemma JM_step s u s' ls : XI5 s -> XI5 s' -> xstep s u = Some (s', ls) -> stays s -> stays s' -> JM s -> JM s'.
+    Proof.
+      intros H5 H5' E [[Hc Hin] [q0 K0]] [[Hc' Hin'] _] HJ q' K'.
+      pose proof (kpos_xstep s u s' ls q0 q' H5 H5' E Hc Hc' K0 K') as ->.
+      specialize (HJ q0 K0).
+      destruct H5 as [[HI [_ [HT HC]]] _].
+      destruct (Nat.eq_dec u t) as [->|Hne].
+      - (* the reader's own step *)
+        assert (Ex : xstep s t = step_pc s t (g_pc s t)).
+        { unfold XMachine.xstep. destruct (g_pc s t); try reflexivity; contradiction. }
+        rewrite Ex in E.
+        assert (Htab : tab < length (g_tabs s)) by (pose proof (xi_cur _ _ _ _ s HI); lia).
+        assert (Hpub : forall w, newtab (g_pc s w) <> Some tab) by (intros w Ew; destruct (xt_new s HT w _ Ew) as [_ B]; lia).
+        destruct K0 as [P1 [P2 [v0 P3]]].
+        assert (Hb : home hash idx (tab_at s tab) k < x_len (tab_at s tab)) by (unfold XMachine.home; apply Hidx; apply (xi_wf _ _ _ _ s HI tab Htab)).
+        destruct (xc_ch _ _ _ _ _ s HC tab _ Htab Hpub Hb) as [Csh [_ Csl]]. unfold X_c04.chain in Csh, Csl.
+        destruct (g_pc s t) eqn:Hp; try contradiction; destruct Hin as [-> [-> [-> Eh]]]; cbn [region] in HJ.
+        + (* PL_Meta: the probe of the meta word finds the slot of k if it is in this bucket *)
+          step_cases5 E; rewrite ?goto_state5 in Hin'; cbn [fst] in Hin'; rewrite set_pc_same in Hin'; cbn [norm] in Hin';
+            rewrite set_pc_same; cbn [norm region].
+          * (* no slot of this bucket carries the tag: k is further on *)
+            destruct (Nat.lt_ge_cases q0 (S bi * nslots)) as [Hlt|Hge]; [|exact Hge]. exfalso.
+            set (i := q0 - bi * nslots). assert (Hi : i < nslots) by (unfold i; lia). assert (Eq : q0 = bi * nslots + i) by (unfold i; lia).
+            specialize (Csl q0 P1). unfold X_c04.slot_ok in Csl. rewrite P3 in Csl.
+            destruct (s_tag (nth q0 (chain_of (tab_at s tab) (home hash idx (tab_at s tab) k)) empty_slot)) as [tg|] eqn:Et; [|apply P2; reflexivity].
+            destruct Csl as [_ Etg]. unfold X_c04.ktag in Etg.
+            match goal with H : probe ?tags ?tg0 = [] |- _ => assert (Hpr : In i (probe tags tg0)); [|rewrite H in Hpr; exact Hpr] end.
+            apply Hprobe_complete.
+            -- unfold tags_of. rewrite map_length. unfold bucket_slots. rewrite firstn_length, skipn_length. unfold XMachine.home in P1. lia.
+            -- rewrite nth_tags_of, (nth_bucket_slots nslots Hnslots _ _ _ Hi), <- Eq. unfold XMachine.home in Et. rewrite Et, Etg. reflexivity.
+          * destruct (Nat.lt_ge_cases q0 (S bi * nslots)) as [Hlt|Hge]; [left|right; exact Hge].
+            set (i := q0 - bi * nslots). assert (Hi : i < nslots) by (unfold i; lia). assert (Eq : q0 = bi * nslots + i) by (unfold i; lia).
+            exists i. split; [|exact Eq].
+            specialize (Csl q0 P1). unfold X_c04.slot_ok in Csl. rewrite P3 in Csl.
+            destruct (s_tag (nth q0 (chain_of (tab_at s tab) (home hash idx (tab_at s tab) k)) empty_slot)) as [tg|] eqn:Et; [|exfalso; apply P2; reflexivity].
+            destruct Csl as [_ Etg]. unfold X_c04.ktag in Etg.
+            match goal with H : probe ?tags ?tg0 = _ :: _ |- _ => rewrite <- H end.
+            apply Hprobe_complete.
+            -- unfold tags_of. rewrite map_length. unfold bucket_slots. rewrite firstn_length, skipn_length. unfold XMachine.home in P1. lia.
+            -- rewrite nth_tags_of, (nth_bucket_slots nslots Hnslots _ _ _ Hi), <- Eq. unfold XMachine.home in Et. rewrite Et, Etg. reflexivity.
+        + (* PL_Ent: the slot just looked at is not the slot of k, or the step is a hit *)
+          step_cases5 E; rewrite ?goto_state5 in Hin'; cbn [fst] in Hin'; rewrite set_pc_same in Hin'; cbn [norm] in Hin';
+            try (destruct lc; contradiction); try contradiction;
+            rewrite set_pc_same; cbn [norm region];
+            (destruct HJ as [[i [Hi Eq]]|Hge]; [|first [right; exact Hge | exact Hge]]);
+            (destruct Hi as [<-|Hi]; [exfalso; subst q0; unfold XMachine.home in P3;
+                                       match goal with H : s_ent _ = _ |- _ => rewrite P3 in H; first [discriminate H | inversion H; subst; congruence] end
+                                     | first [left; exists i; split; [exact Hi | exact Eq] | destruct Hi] ]).
+        + (* PL_Next *)
+          step_cases5 E; rewrite ?goto_state5 in Hin'; cbn [fst] in Hin'; rewrite set_pc_same in Hin'; cbn [norm] in Hin';
+            try (destruct lc; cbn in Hin'; contradiction); rewrite set_pc_same; cbn [norm region]; first [exact HJ | exact I | (destruct lc; cbn in Hin'; contradiction)].
+      - (* another thread: the reader stands where it stood *)
+        assert (Ept : g_pc s' t = g_pc s t).
+        { destruct (xstep_others s u s' ls HI E t (not_eq_sym Hne)) as [E0|E0]; [exact E0|]. rewrite E0.
+          destruct (g_pc s t); try reflexivity; contradiction. }
+        rewrite Ept. exact HJ.
+    Qed.
+
+    (* the next step of the reader is not a miss *)
+    Lemma miss_step s s2 ls2 : XI5 s -> stays s -> JM s -> xstep s t = Some (s2, ls2) ->
+      ~ In (XRes t (XRVal None false)) ls2 /\ (forall cx, g_pc s2 t <> PW_Table cx).
+    Proof.
+      intros [[HI [_ [HT HC]]] _] [[Hc Hin] [q0 K0]] HJ E.
+      assert (Ex : xstep s t = step_pc s t (g_pc s t)).
+      { unfold XMachine.xstep. destruct (g_pc s t); try reflexivity; contradiction. }
+      rewrite Ex in E. specialize (HJ q0 K0).
+      assert (Htab : tab < length (g_tabs s)) by (pose proof (xi_cur _ _ _ _ s HI); lia).
+      assert (Hpub : forall w, newtab (g_pc s w) <> Some tab) by (intros w Ew; destruct (xt_new s HT w _ Ew) as [_ B]; lia).
+      assert (Hb : home hash idx (tab_at s tab) k < x_len (tab_at s tab)) by (unfold XMachine.home; apply Hidx; apply (xi_wf _ _ _ _ s HI tab Htab)).
+      destruct (xc_ch _ _ _ _ _ s HC tab _ Htab Hpub Hb) as [Csh _]. unfold X_c04.chain in Csh.
+      destruct (shaped_nbuckets nslots Hnslots _ Csh) as [Elen _].
+      destruct K0 as [P1 _].
+      destruct (g_pc s t) eqn:Hp; try contradiction; destruct Hin as [-> [-> [-> Eh]]]; cbn [region] in HJ.
+      - step_cases5 E; rewrite set_pc_same; cbn [norm]; (split; [cbn [In]; intros [H|[]]; discriminate H | intros cx9; discriminate]).
+      - step_cases5 E; rewrite set_pc_same; cbn [norm];
+          (split; [intros H; repeat (apply in_app_or in H; destruct H as [H|H]); cbn [In] in H;
+                   repeat match goal with H0 : _ \/ _ |- _ => destruct H0 end; try contradiction; discriminate
+                  | intros cx9; try discriminate; destruct lc; discriminate]).
+      - unfold XMachine.home in P1, Elen.
+        step_cases5 E; rewrite ?set_pc_same; cbn [norm];
+          first [ (exfalso; match goal with H : Nat.ltb _ _ = false |- _ => apply Nat.ltb_ge in H end; nia)
+                | (split; [cbn [In]; intros [H|[]]; discriminate H | intros cx9; discriminate]) ].
+    Qed.
+
+    Notation along := (@X_range.along K V eqd hash idx tag nslots seeds grow_needed shrink_policy probe nstripes minlen grow_only).
+
+    Lemma load_no_miss_gen sched : forall s, XI5 s -> along stays s sched -> JM s ->
+      forall s2 ls2, xstep (fst (xrun s sched)) t = Some (s2, ls2) ->
+      ~ In (XRes t (XRVal None false)) ls2 /\ (forall cx, g_pc s2 t <> PW_Table cx).
+    Proof.
+      induction sched as [|u r IH]; intros s H5 Hal HJ s2 ls2 E; cbn [XMachine.xrun X_range.along] in *.
+      - destruct Hal as [Hst _]. cbn [fst] in E. apply (miss_step s s2 ls2 H5 Hst HJ E).
+      - destruct Hal as [Hst Hal]. destruct (xstep s u) as [[s' ls]|] eqn:Eu.
+        + pose proof (XI5_xstep eqd hash idx tag nslots seeds grow_needed shrink_policy probe nstripes minlen grow_only
+                        Hidx Hstripes Hminlen Hnslots Hprobe_sound Hprobe_complete s u s' ls H5 Eu) as H5'.
+          assert (Hst' : stays s') by (destruct r; cbn [X_range.along] in Hal; apply Hal).
+          pose proof (JM_step s u s' ls H5 H5' Eu Hst Hst' HJ) as HJ'.
+          destruct (XMachine.xrun _ _ _ _ _ _ _ _ _ _ _ _ s' r) as [s'' ls''] eqn:Er. cbn [fst] in E.
+          specialize (IH s' H5' Hal HJ' s2 ls2). rewrite Er in IH. cbn [fst] in IH. apply IH. exact E.
+        + apply (IH s H5 Hal HJ s2 ls2 E).
+    Qed.
+
+    (* C04, readers, the other half: from a state in which thread t is about to load the first meta word of
+       the chain, as long as it stays inside the lookup and k is visible in table tab in every state of
+       the run, its next step is not a miss (it does not return "absent" and does not fall through to the
+       locked path of a load-or-compute) *)
+    Theorem load_no_miss s sched s2 ls2 : XI5 s -> along stays s sched ->
+      (exists k' lc' tab' h, g_pc s t = PL_Meta k' lc' tab' h 0) ->
+      xstep (fst (xrun s sched)) t = Some (s2, ls2) ->
+      ~ In (XRes t (XRVal None false)) ls2 /\ (forall cx, g_pc s2 t <> PW_Table cx).
+    Proof.
+      intros H5 Hal [k' [lc' [tab' [h Hp]]]] E.
+      apply (load_no_miss_gen sched s H5 Hal) with (s2 := s2) (ls2 := ls2); [|exact E].
+      intros q _. rewrite Hp. cbn [region]. lia.
+    Qed.
+  End OneMiss.
 End LoadHit.
 
 (* ---------------- the statement of props/C04.v ---------------- *)
@@ -334,6 +577,19 @@ Section Final.
   Notation xstep := (@xstep K V eqd hash idx tag nslots seeds grow_needed shrink_policy probe nstripes minlen grow_only).
   Notation along := (@X_range.along K V eqd hash idx tag nslots seeds grow_needed shrink_policy probe nstripes minlen grow_only).
   Notation ever := (@ever K V eqd hash idx tag nslots seeds grow_needed shrink_policy probe nstripes minlen grow_only).
+
+  Lemma load_no_miss_proof :
+    xhyps4 idx nstripes minlen nslots probe -> forall len0 todo sched0 sched t k lc tab s2 ls2, 0 < len0 ->
+    let s := fst (xrun (xinit nslots seeds nstripes len0 todo) sched0) in
+    along (stays hash idx nslots nstripes t k lc tab) s sched ->
+    (exists k' lc' tab' h, g_pc s t = PL_Meta k' lc' tab' h 0) ->
+    xstep (fst (xrun s sched)) t = Some (s2, ls2) ->
+    ~ In (XRes t (XRVal None false)) ls2 /\ (forall cx, g_pc s2 t <> PW_Table cx).
+  Proof.
+    intros [[H1 [H2 H3]] [H4 [H5 H6]]] len0 todo sched0 sched t k lc tab s2 ls2 Hl s.
+    apply (load_no_miss eqd hash idx tag nslots seeds grow_needed shrink_policy probe nstripes minlen grow_only H1 H2 H3 H4 H5 H6 t k lc tab s sched s2 ls2).
+    apply (reachable_inv5 eqd hash idx tag nslots seeds grow_needed shrink_policy probe nstripes minlen grow_only H1 H2 H3 H4 H5 H6 len0 todo sched0 Hl).
+  Qed.
 
   Lemma load_hit_proof :
     xhyps4 idx nstripes minlen nslots probe -> forall len0 todo sched0 sched t k lc tab v s2 ls2, 0 < len0 ->
